@@ -127,6 +127,15 @@ func (e *Eval) Prepare(flags ...[]byte) error {
 	}
 
 	//
+	// Each call compiles the script afresh: whatever an earlier
+	// call of Prepare produced is dropped, rather than having the
+	// new code appended to it.
+	//
+	e.instructions = nil
+	e.constants = nil
+	e.functions = make(map[string]environment.UserFunction)
+
+	//
 	// Compile the program to bytecode
 	//
 	err = e.compile(program)
